@@ -62,8 +62,19 @@ class SeqEval:
                         if self.cfg.path_avoiding(nid, at, lambda x, sn=sn: x.id == sn) is not None:
                             return None  # conditional update: not a fixed shape
                         ups.append((st.lineno, unparse(t.slice), self._elem(st.value, sn)))
-        for _, k, v in sorted(ups):
-            segs = point_update(segs, k, v)
+        # l.insert(k, v) between the copy and the use
+        for st in walk_local(self.fn):
+            if isinstance(st, ast.Expr) and isinstance(st.value, ast.Call) and isinstance(st.value.func, ast.Attribute) and st.value.func.attr == "insert" and isinstance(st.value.func.value, ast.Name) and st.value.func.value.id == n.id and len(st.value.args) == 2:
+                sn = self.cfg.node_of(st)
+                if sn in self.cfg.reachable(nid) and at in self.cfg.reachable(sn):
+                    if self.cfg.path_avoiding(nid, at, lambda x, sn=sn: x.id == sn) is not None:
+                        return None
+                    ups.append((st.lineno, ("insert", unparse(st.value.args[0])), self._elem(st.value.args[1], sn)))
+        for _, k, v in sorted(ups, key=lambda u: u[0]):
+            if isinstance(k, tuple) and k[0] == "insert":
+                segs = inserted_at(segs[0][1], k[1], v) if len(segs) == 1 and segs[0][0] == "all" else None
+            else:
+                segs = point_update(segs, k, v)
             if segs is None:
                 return None
         return segs
@@ -121,9 +132,16 @@ class SeqEval:
             return None if l is None or r is None else l + r
         if isinstance(e, ast.Subscript) and isinstance(e.slice, ast.Slice) and e.slice.step is None:
             b = self.eval(e.value, at, depth)
+            lo, hi = self._bound(e.slice.lower, at), self._bound(e.slice.upper, at)
+            if b is not None and len(b) == 3 and b[0][0] == "slice" and b[0][2] is None and b[1][0] == "elem" and hi is None:
+                # (X[:k] + [v] + REST)[k + 1:] == REST ;  [k:] == [v] + REST   (0 <= k <= len(X) is the caller's obligation)
+                k = b[0][3]
+                if lo == f"{k} + 1":
+                    return (b[2],)
+                if lo == k:
+                    return (b[1], b[2])
             if b is None or len(b) != 1 or b[0][0] != "all":
                 return None
-            lo, hi = self._bound(e.slice.lower, at), self._bound(e.slice.upper, at)
             if lo in ("0",):
                 lo = None
             if lo is None and hi is None:
